@@ -64,6 +64,7 @@ type Exec struct {
 	atomicAccess bool
 	quantUsed []quantUse
 	clauseProps []string
+	inSpec    int
 }
 
 func NewExec(ctx *VerifCtx) *Exec {
@@ -485,6 +486,7 @@ func (fr *Frame) runLoop(li *loopInfo, entry []edge) map[*ssa.BasicBlock][]edge 
 		}
 	}
 	st1 := havocTargets(st0, targetsC, targetsH)
+	ex.loopFrameAxioms(fr, li, pc0, st0, st1, targetsC, targetsH)
 	env1 := fr.specEnv(st1, fr.entry)
 	var variant0 *Term
 	for _, inv := range invs {
@@ -500,6 +502,21 @@ func (fr *Frame) runLoop(li *loopInfo, entry []edge) map[*ssa.BasicBlock][]edge 
 	exits, backs := fr.runRegion(li, li.head, []edge{{nil, pc0, st1}})
 	for to, es := range exits {
 		out[to] = append(out[to], es...)
+		// exitstep clauses: relation between the start of the last iteration and the exit
+		for _, inv := range invs {
+			if inv.Kind != "exitstep" || !strings.HasSuffix(to.Comment, ".done") {
+				continue
+			}
+			pce, ste := mergeEdges(es)
+			if pce == False {
+				continue
+			}
+			envs := fr.specEnv(ste, st1)
+			ex.clauseProps = inv.Props
+			g := ex.proveSpec(inv.Expr, inv.Info, envs, pce)
+			ex.oblige("loop-exitstep", fmt.Sprintf("%s.%d", loopName(li), inv.Index), inv.Pos, pce, g, inv.Text)
+			ex.clauseProps = nil
+		}
 	}
 	pcb, stb := mergeEdges(backs)
 	if pcb != False {
@@ -510,6 +527,12 @@ func (fr *Frame) runLoop(li *loopInfo, entry []edge) map[*ssa.BasicBlock][]edge 
 				ex.clauseProps = inv.Props
 				g := ex.proveSpec(inv.Expr, inv.Info, envb, pcb)
 				ex.oblige("invariant-preserved", fmt.Sprintf("%s.%d", loopName(li), inv.Index), inv.Pos, pcb, g, inv.Text)
+				ex.clauseProps = nil
+			case "step":
+				envs := fr.specEnv(stb, st1)
+				ex.clauseProps = inv.Props
+				g := ex.proveSpec(inv.Expr, inv.Info, envs, pcb)
+				ex.oblige("loop-step", fmt.Sprintf("%s.%d", loopName(li), inv.Index), inv.Pos, pcb, g, inv.Text)
 				ex.clauseProps = nil
 			case "decreases":
 				v := ex.evalSpec(inv.Expr, inv.Info, envb, pcb).(IntV).T
@@ -679,4 +702,117 @@ func posOf(ins ssa.Instruction) token.Pos {
 		}
 	}
 	return token.NoPos
+}
+
+// loopFrameAxioms: a heap array havoc'd at a loop head keeps its entry value at
+// every object that was allocated before the loop and that no iteration stores
+// to. The set of stored-to references is read off the symbolic state of one
+// iteration started from the havoc'd state (dry run): references allocated
+// during the iteration are fresh objects; other store targets whose terms only
+// mention symbols older than the loop are excluded explicitly; if a store
+// target depends on loop-varying state no axiom is emitted for that array.
+func (ex *Exec) loopFrameAxioms(fr *Frame, li *loopInfo, pc0 *Term, st0, st1 *State, targetsC map[int]bool, targetsH map[string]bool) {
+	if len(targetsH) == 0 {
+		return
+	}
+	water := TB.next
+	ex.dry++
+	na := len(ex.assumes)
+	_, backs := fr.runRegion(li, li.head, []edge{{nil, pc0, st1}})
+	ex.assumes = ex.assumes[:na]
+	ex.dry--
+	_, stb := mergeEdges(backs)
+	if stb == nil {
+		return
+	}
+	alloc0 := st0.get("alloc", SArr(SRef, SBool))
+	if targetsH["alloc"] {
+		// allocation is monotone
+		r := BoundVar("b.al", SRef)
+		axq := Quant("forall", r, Implies(Select(alloc0, r), Select(st1.get("alloc", SArr(SRef, SBool)), r)))
+		instQuant[axq.id] = true
+		ex.assume(pc0, axq)
+	}
+	for name := range targetsH {
+		if strings.HasPrefix(name, "ghost|") || name == "alloc" {
+			continue
+		}
+		sort := heapSorts[name]
+		if idxSort(sort) != SRef {
+			continue
+		}
+		base := st1.get(name, sort)
+		fin := stb.get(name, sort)
+		var idxs []*Term
+		ok := true
+		seen := map[int]bool{}
+		var walk func(t *Term)
+		walk = func(t *Term) {
+			if !ok || seen[t.id] {
+				return
+			}
+			seen[t.id] = true
+			switch {
+			case t == base:
+			case t.op == "store":
+				idxs = append(idxs, t.args[1])
+				walk(t.args[0])
+			case t.op == "ite":
+				walk(t.args[1])
+				walk(t.args[2])
+			default:
+				ok = false
+			}
+		}
+		walk(fin)
+		if !ok {
+			continue
+		}
+		var excl []*Term
+		for _, ix := range idxs {
+			if isFreshObjRef(ix, water) {
+				continue // allocated inside the iteration: not allocated at loop entry
+			}
+			if maxLeafID(ix) > water {
+				ok = false
+				break
+			}
+			excl = append(excl, ix)
+		}
+		if !ok {
+			continue
+		}
+		r := BoundVar("b.fr", SRef)
+		conds := []*Term{Select(alloc0, r)}
+		for _, e := range excl {
+			conds = append(conds, Neq(r, e))
+		}
+		ax := Quant("forall", r, Implies(And(conds...), Eq(Select(st1.get(name, sort), r), Select(st0.get(name, sort), r))))
+		instQuant[ax.id] = true
+		ex.assume(pc0, ax)
+	}
+}
+
+func isFreshObjRef(t *Term, water int) bool {
+	return t.leaf && t.id > water && (strings.HasPrefix(t.op, "new.") || strings.HasPrefix(t.op, "arr.") || strings.HasPrefix(t.op, "chan") || strings.HasPrefix(t.op, "map") || strings.HasPrefix(t.op, "buf"))
+}
+
+func maxLeafID(t *Term) int {
+	m := 0
+	seen := map[int]bool{}
+	var visit func(x *Term)
+	visit = func(x *Term) {
+		if seen[x.id] {
+			return
+		}
+		seen[x.id] = true
+		if x.leaf && x.id > m {
+			m = x.id
+		}
+		for _, a := range x.args {
+			visit(a)
+		}
+	}
+	visit(t)
+	return m
 }
